@@ -1459,10 +1459,22 @@ static void send_event_file(int sock, const char *dirname)
 
 static void send_log_file(int sock, const char *logfile)
 {
+	const char *base;
+	char *dir;
+
 	if (access(logfile, F_OK) != 0)
 		return;
 
-	send_trace_metadata(sock, NULL, (char *)logfile);
+	/* the receiver stores it in its data directory: send the file name only */
+	base = strrchr(logfile, '/');
+	if (base == NULL) {
+		send_trace_metadata(sock, NULL, (char *)logfile);
+		return;
+	}
+
+	dir = xstrndup(logfile, base == logfile ? 1 : base - logfile);
+	send_trace_metadata(sock, dir, (char *)base + 1);
+	free(dir);
 }
 
 static void update_session_maps(struct uftrace_opts *opts)
